@@ -284,6 +284,23 @@ def run(index, rep, tier):
                           "%s stores `%s._parent_node = self` without removing the node from the child list of the parent it had: re-parenting a node that is still attached elsewhere (y.add_child(A) with A under x) leaves A among the children of BOTH nodes - every traversal then visits A twice and the tree is no longer an arborescence" % (f.qualname, nodep))
         rep.floor("R03.9", "direct parent-link stores in add_child / insert_child", 2, npl)
 
+    # ---- R03.10 replacing the children by a view of themselves
+    with rep.section("R03.10"):
+        rep.rule("R03.10", "set_child_nodes reads its argument before it empties the node: the child list is cleared in place, so an argument that is a lazy view of the node's own children (child_node_iter(), reversed(...), a generator) must be materialised first - otherwise reordering a node's children through it silently drops them all")
+        f = index.function(NODE + ".set_child_nodes")
+        g = cfg_of(f)
+        p_ = [x for x in f.params if x != "self"][0]
+        clears = [nd for nd in g.nodes if any(call_name(c) in ("clear_child_nodes", "clear") for c in node_calls(nd)) or (nd.kind == "stmt" and isinstance(nd.ast, ast.Assign) and norm(nd.ast.targets[0]) == "self._child_nodes")]
+        in_place = [nd for nd in clears if any(call_name(c) in ("clear_child_nodes", "clear") for c in node_calls(nd))]
+        if not clears:
+            raise AnalysisError("R03.10: set_child_nodes no longer empties the node first")
+        for cl in in_place:
+            mat = lambda nd: nd.kind == "stmt" and isinstance(nd.ast, ast.Assign) and isinstance(nd.ast.value, ast.Call) and isinstance(nd.ast.value.func, ast.Name) and nd.ast.value.func.id in ("list", "tuple") and nd.ast.value.args and norm(nd.ast.value.args[0]) == p_
+            ok = g.dominated_by(cl, mat, follow_exc=False)
+            rep.check(ok, "R03.10", f.qualname, "children cleared in place before the argument is read", fn_where(f, cl.stmt), "set_child_nodes materialises `%s` before clearing" % p_,
+                      "Node.set_child_nodes empties self._child_nodes in place and only then iterates `%s`: when the caller passes a lazy view of this node's own children (nd.set_child_nodes(nd.child_node_iter()), reversed(nd._child_nodes)) the view is empty by then and the node loses all its children - leaves and their taxa vanish from the tree" % p_)
+        rep.floor("R03.10", "in-place clears in set_child_nodes", 1, len(in_place))
+
 
 def _pairing(rep, fi):
     cfg = cfg_of(fi)
